@@ -165,3 +165,432 @@ def emit(fmt, lines):
 
 def _milli(v):
     return int(round(float(v) * 1000))
+
+
+_TMPDIR = None      # set by the property driver to a lib.Scratch directory before recording
+_COUNTER = [0]
+
+
+def set_tmpdir(path):
+    global _TMPDIR
+    _TMPDIR = path
+    os.makedirs(path, exist_ok=True)
+
+
+def _tmpfile(ext, text):
+    if _TMPDIR is None:
+        raise lib.MachineryError("atomtable: scratch directory not set")
+    _COUNTER[0] += 1
+    p = os.path.join(_TMPDIR, f"t{os.getpid()}-{_COUNTER[0]}.{ext}")
+    with open(p, "w") as f:
+        f.write(text)
+    return p
+
+
+def _s(v):
+    return "" if v is None else str(v)
+
+
+def _i(v):
+    return -99999 if v is None else int(v)
+
+
+def _lab(label):
+    return [] if label is None else [_s(label.chain), _i(label.number), _s(label.name)]
+
+
+def _atom_rec(a):
+    return {"an": _s(a.name), "x": _milli(a.x), "y": _milli(a.y), "z": _milli(a.z)}
+
+
+def project_structure(s):
+    """Structure3D -> answer (list of residues) through the public attributes only."""
+    return [{"m": _i(r.model), "ch": _s(r.chain), "num": _i(r.number), "ic": _s(r.icode), "rn": _s(r.name),
+             "lab": _lab(r.label), "atoms": [_atom_rec(a) for a in r.atoms]} for r in s.residues]
+
+
+def project_atoms(atoms):
+    out = []
+    for a in atoms:
+        au = a.auth
+        out.append({"m": _i(a.model), "ch": _s(au.chain) if au else "", "num": _i(au.number) if au else -99999,
+                    "ic": _s(au.icode) if au else "", "rn": _s(au.name) if au else "", "lab": _lab(a.label),
+                    "an": _s(a.name), "x": _milli(a.x), "y": _milli(a.y), "z": _milli(a.z)})
+    return out
+
+
+# ----------------------------------------------------------------------------- C08 recording
+
+def case_text(case):
+    if case["fmt"] == "pdb":
+        return emit_pdb(case["lines"])
+    cols = list(_CIF_COLS)
+    if case.get("colseed"):
+        random.Random(case["colseed"]).shuffle(cols)
+    return emit_cif(case["lines"], cols)
+
+
+def record_c08(case):
+    """Materialise the table, call the public reader, project the answer (or the exception)."""
+    import logging
+    logging.disable(logging.CRITICAL)
+    from rnapolis import parser
+    c = dict(case)
+    path = _tmpfile(case["fmt"], case_text(case))
+    c["err"] = ""
+    try:
+        with open(path) as f:
+            if case["kind"] == "read":
+                c["res"] = []
+                s = parser.read_3d_structure(f, None if case["req"] == 0 else case["req"])
+                c["res"] = project_structure(s)
+            else:
+                c["atoms"] = []
+                got = parser.parse_pdb(f) if case["fmt"] == "pdb" else parser.parse_cif(f)
+                c["atoms"] = project_atoms(got[0])
+    except Exception as e:      # the error path is data; the spec decides whether it is allowed
+        c["err"] = type(e).__name__
+    finally:
+        os.remove(path)
+    return c
+
+
+# ----------------------------------------------------------------------------- C15 recording
+
+def _rid(ch, num, ic):
+    return [_s(ch), _i(num), _s(ic)]
+
+
+def _micro(v):
+    return int(round(float(v) * 1_000_000))
+
+
+def _read_v1(fmt, text):
+    from rnapolis import parser
+    r = {"name": "v1-" + fmt, "gen": 1, "fmt": fmt, "err": "", "res": [], "conn": [], "queried": [], "chi": []}
+    path = _tmpfile(fmt, text)
+    try:
+        with open(path) as f:
+            s = parser.read_3d_structure(f)
+        r["res"] = [{k: v for k, v in d.items() if k != "lab"} for d in project_structure(s)]
+        rs = s.residues
+        for a in rs:
+            for b in rs:
+                if a is not b and a.chain == b.chain:
+                    q = [_rid(a.chain, a.number, a.icode), _rid(b.chain, b.number, b.icode)]
+                    r["queried"].append(q)
+                    if a.is_connected(b):
+                        r["conn"].append(q)
+        for a in rs:
+            v = a.chi
+            if not math.isnan(v):
+                r["chi"].append({"id": _rid(a.chain, a.number, a.icode), "v": _micro(v)})
+    except Exception as e:
+        r["err"] = type(e).__name__
+    finally:
+        os.remove(path)
+    return r
+
+
+def _read_v2(fmt, text):
+    import io
+    import pandas as pd
+    from rnapolis import parser_v2, tertiary_v2
+    r = {"name": "v2-" + fmt, "gen": 2, "fmt": fmt, "err": "", "res": [], "conn": [], "queried": [], "chi": []}
+    try:
+        df = parser_v2.parse_pdb_atoms(io.StringIO(text)) if fmt == "pdb" else parser_v2.parse_cif_atoms(io.StringIO(text))
+        st = tertiary_v2.Structure(df)
+        for x in st.residues:
+            atoms = []
+            for a in x.atoms_list:
+                xyz = a.coordinates
+                atoms.append({"an": _s(a.name), "x": _milli(xyz[0]), "y": _milli(xyz[1]), "z": _milli(xyz[2])})
+            r["res"].append({"m": 1, "ch": _s(x.chain_id), "num": _i(x.residue_number), "ic": _s(x.insertion_code),
+                             "rn": _s(x.residue_name), "atoms": atoms})
+        for seg in st.connected_residues:
+            for a, b in zip(seg, seg[1:]):
+                r["conn"].append([_rid(a.chain_id, a.residue_number, a.insertion_code),
+                                  _rid(b.chain_id, b.residue_number, b.insertion_code)])
+        ta = st.torsion_angles
+        for _, row in ta.iterrows():
+            v = row["chi"]
+            if v is not None and not pd.isna(v):
+                r["chi"].append({"id": _rid(row["chain_id"], row["residue_number"], row["insertion_code"]
+                                            if row["insertion_code"] is not None and not pd.isna(row["insertion_code"]) else ""),
+                                 "v": _micro(v)})
+    except Exception as e:
+        r["err"] = type(e).__name__
+    return r
+
+
+def record_c15(case):
+    import logging
+    logging.disable(logging.CRITICAL)
+    c = dict(case)
+    reads = []
+    for fmt in case["fmts"]:
+        text = emit(fmt, case["lines"])
+        reads.append(_read_v1(fmt, text))
+        reads.append(_read_v2(fmt, text))
+    # v1 answers carry the model tag; C15 compares single-model structures only
+    for r in reads:
+        for d in r["res"]:
+            d.pop("m", None)
+    c["reads"] = reads
+    return c
+
+
+# ----------------------------------------------------------------------------- table generation
+# Geometry: residue r of a table sits at ORIGIN + r * STEP; its atoms at fixed offsets that are
+# mutually >= 1.2 A apart and within 2.6 A of the residue origin, so that atoms of different
+# residues are never closer than 2 A unless a feature places them so.
+
+_OFFS = [(0, 0, 0), (1371, -212, 405), (-604, 1290, 377), (512, 777, -1301), (-1190, -930, -642),
+         (1405, 1251, -911), (-1633, 208, 1202), (377, -1544, -903)]
+_STEP = (7309, 433, -917)
+_ORIGINS = [(12345, -6789, 1011), (-104321, 88007, -15550), (301, 9, -99001), (987654, -432100, 123456)]
+_ALT_SHIFT = (180, -200, 140)       # 0.303 A
+_REP_SHIFT = (-250, 100, 130)       # 0.299 A
+_PARTNER = {300: (200, 200, 100), 490: (490, 0, 0), 510: (300, 300, 282), 700: (0, -700, 0)}
+_NAMES = ["P", "OP1", "OP2", "O5'", "C5'", "C4'", "O4'", "C3'", "O3'", "C2'", "O2'", "C1'", "N9", "C8", "N7", "C4",
+          "N1", "C2", "H5''", "HO5'"]
+_POLY = ["G", "A", "C", "U", "DG", "DT", "PSU", "5MC"]
+_HET = ["HOH", "MG", "SAM"]
+_NUMS = [-3, 1, 2, 10, -10, 0, 999, 1000, 57]
+_FAR = (41500, -37000, 52250)
+_NEAR = (110, -40, 60)              # 0.13 A: an NMR-like second model
+
+
+def _check_offsets():
+    for a in range(len(_OFFS)):
+        for b in range(a + 1, len(_OFFS)):
+            d2 = sum((p - q) ** 2 for p, q in zip(_OFFS[a], _OFFS[b]))
+            if d2 < 1200 ** 2:
+                raise lib.MachineryError("generator offsets too close")
+    for d, v in _PARTNER.items():
+        d2 = sum(x * x for x in v)
+        if (d < 500) != (d2 < 500 ** 2) or d2 == 500 ** 2:
+            raise lib.MachineryError("partner vector does not realise its distance class")
+
+
+_check_offsets()
+
+ATOM_FEATURES = ["plain", "alt-lo-hi", "alt-hi-lo", "alt-tie", "rep-lo-hi", "rep-hi-lo", "rep-tie",
+                 "clash300-lower", "clash300-higher", "clash300-tie", "clash490-lower", "miss510", "miss700",
+                 "clash-next-residue"]
+NULL_FEATURES = ["occ-absent", "occ-absent-repeated", "occ-absent-clash"]
+LAYOUTS = ["one", "one-num3", "two-shared-far", "two-shared-near", "two-shared-occ", "two-disjoint-far",
+           "two-disjoint-near", "three-shared", "two-renumbered"]
+
+
+def _add(p, q):
+    return (p[0] + q[0], p[1] + q[1], p[2] + q[2])
+
+
+def _line(m, res, an, xyz, occ=100, alt=""):
+    return {"m": m, "het": res["het"], "ch": res["ch"], "num": res["num"], "ic": res["ic"], "rn": res["rn"], "an": an,
+            "alt": alt, "occ": occ, "x": xyz[0], "y": xyz[1], "z": xyz[2], "lch": res["lch"], "lnum": res["lnum"],
+            "lrn": res["rn"], "icn": res["icn"], "ocn": res["ocn"]}
+
+
+def build_model(rng, m, feats, *, chains=1, icn="?", ocn="?", origin=None, allow_partner=True):
+    """One model: a list of residues, each showing one atom feature (in order), plus plain atoms."""
+    origin = origin or rng.choice(_ORIGINS)
+    nres = max(1, len(feats))
+    chain_ids = rng.sample(["A", "B", "x", "1", "Q"], chains)
+    ids = set()
+    residues = []
+    for r in range(nres):
+        ch = chain_ids[min(chains - 1, r * chains // nres)]
+        while True:
+            num, ic = rng.choice(_NUMS), rng.choice(["", "", "", "A", "B"])
+            if (ch, num, ic) not in ids:
+                ids.add((ch, num, ic))
+                break
+        het = 1 if rng.random() < 0.2 else 0
+        rn = rng.choice(_HET if het and rng.random() < 0.7 else _POLY)
+        residues.append({"ch": ch, "num": num, "ic": ic, "rn": rn, "het": het, "lch": {"A": "A", "B": "BA", "x": "C",
+                         "1": "D", "Q": "E"}[ch], "lnum": 0 if (het and rn in _HET) else r + 1, "icn": icn, "ocn": ocn})
+    # two residues that differ in the insertion code only are interesting: force one such pair sometimes
+    if nres >= 2 and rng.random() < 0.3 and residues[0]["ch"] == residues[1]["ch"]:
+        ic2 = "A" if residues[0]["ic"] != "A" else "B"
+        if (residues[0]["ch"], residues[0]["num"], ic2) not in ids:
+            residues[1]["num"], residues[1]["ic"] = residues[0]["num"], ic2
+            ids.add((residues[1]["ch"], residues[1]["num"], ic2))
+    lines = []
+    carry = None        # a clash partner owed to the first atom of the next residue
+    for r, res in enumerate(residues):
+        o = _add(origin, (r * _STEP[0], r * _STEP[1], r * _STEP[2]))
+        names = rng.sample(_NAMES[:18], 4) if not (res["het"] and res["rn"] == "MG") else ["MG"] + rng.sample(_NAMES[:18], 3)
+        if rng.random() < 0.15:
+            names[3] = rng.choice(["H5''", "HO5'"])
+        feat = feats[r] if r < len(feats) else "plain"
+        k = 0
+        block_b = []
+        if carry is not None:
+            lines.append(_line(m, res, names[3], carry[0], carry[1]))
+            carry = None
+        p0 = _add(o, _OFFS[0])
+        if feat == "plain":
+            lines.append(_line(m, res, names[0], p0, rng.choice([100, 100, 75])))
+        elif feat.startswith("alt-"):
+            oa, ob = {"alt-lo-hi": (40, 60), "alt-hi-lo": (60, 40), "alt-tie": (50, 50)}[feat]
+            second = rng.random() < 0.5      # a second atom with alternates, written block-wise (all A, then all B)
+            lines.append(_line(m, res, names[0], p0, oa, "A"))
+            if second:
+                p1 = _add(o, _OFFS[4])
+                lines.append(_line(m, res, names[3], p1, oa, "A"))
+                lines.append(_line(m, res, names[0], _add(p0, _ALT_SHIFT), ob, "B"))
+                lines.append(_line(m, res, names[3], _add(p1, _ALT_SHIFT), ob, "B"))
+            else:
+                lines.append(_line(m, res, names[0], _add(p0, _ALT_SHIFT), ob, "B"))
+        elif feat.startswith("rep-"):
+            oa, ob = {"rep-lo-hi": (30, 70), "rep-hi-lo": (70, 30), "rep-tie": (100, 100)}[feat]
+            lines.append(_line(m, res, names[0], p0, oa))
+            if rng.random() < 0.5:
+                lines.append(_line(m, res, names[0], _add(p0, _REP_SHIFT), ob))
+            else:
+                block_b.append(_line(m, res, names[0], _add(p0, _REP_SHIFT), ob))   # repeated after the other atoms
+        elif feat.startswith("clash") or feat.startswith("miss"):
+            d = int(feat[5:8]) if feat[5:8].isdigit() else (int(feat[4:7]) if feat[4:7].isdigit() else 300)
+            rel = feat.split("-")[-1]
+            mine = rng.choice([50, 80])
+            other = {"lower": mine - 30, "higher": mine + 20, "tie": mine}.get(rel, mine - 30)
+            if feat == "clash-next-residue" and r + 1 < nres:
+                lines.append(_line(m, res, names[0], p0, mine))
+                carry = (_add(p0, _PARTNER[300]), rng.choice([mine - 30, mine + 20]))
+            else:
+                first_partner = rng.random() < 0.5      # the partner may come before or after in the file
+                a = _line(m, res, names[0], p0, mine)
+                b = _line(m, res, names[3], _add(p0, _PARTNER[d]), other)
+                lines += [b, a] if first_partner else [a, b]
+        elif feat == "occ-absent":
+            lines.append(_line(m, res, names[0], p0, -1))
+        elif feat == "occ-absent-repeated":
+            lines.append(_line(m, res, names[0], p0, -1))
+            lines.append(_line(m, res, names[0], _add(p0, _REP_SHIFT), rng.choice([-1, 50])))
+        elif feat == "occ-absent-clash":
+            lines.append(_line(m, res, names[0], p0, -1))
+            lines.append(_line(m, res, names[3], _add(p0, _PARTNER[300]), rng.choice([-1, 60])))
+        else:
+            raise lib.MachineryError("unknown feature " + feat)
+        # plain companions
+        for j in (1, 2):
+            if rng.random() < 0.7:
+                lines.append(_line(m, res, names[j], _add(o, _OFFS[j]), rng.choice([100, 100, 100, 50, 0])))
+        lines += block_b
+    return lines
+
+
+def _shift(lines, m, d, **over):
+    out = []
+    for ln in lines:
+        n = dict(ln)
+        n["m"] = m
+        n["x"], n["y"], n["z"] = ln["x"] + d[0], ln["y"] + d[1], ln["z"] + d[2]
+        n.update(over)
+        out.append(n)
+    return out
+
+
+def build_table(rng, layout, feats, *, chains=1, icn="?", ocn="?"):
+    clashy = any(f.startswith("clash") or f.startswith("miss") or f == "occ-absent-clash" for f in feats)
+    if layout == "one":
+        return build_model(rng, 1, feats, chains=chains, icn=icn, ocn=ocn)
+    if layout == "one-num3":
+        return build_model(rng, 3, feats, chains=chains, icn=icn, ocn=ocn)
+    base = build_model(rng, 1, feats, chains=chains, icn=icn, ocn=ocn)
+    if layout == "two-shared-far":
+        return base + _shift(base, 2, _FAR)
+    if layout == "two-shared-near":
+        return base + _shift(base, 2, _NEAR)
+    if layout == "two-shared-occ":      # model 2 carries higher occupancies than model 1
+        second = _shift(base, 2, _FAR)
+        for a, b in zip(base, second):
+            if a["occ"] >= 0:
+                a["occ"] = min(a["occ"], 60)
+                b["occ"] = min(100, a["occ"] + rng.choice([0, 10, 25]))
+        return base + second
+    if layout == "two-renumbered":
+        return _shift(base, 2, (0, 0, 0)) + _shift(base, 5, _FAR)
+    if layout == "three-shared":
+        return base + _shift(base, 2, _FAR) + _shift(base, 3, (-_FAR[0], _FAR[1], -_FAR[2]))
+    # disjoint identities: the second model lives in another chain
+    other = "Z"
+    if layout == "two-disjoint-far":
+        return base + _shift(base, 2, _FAR, ch=other, lch="ZZ")
+    if layout == "two-disjoint-near":
+        if clashy:      # keep every atom with at most one close neighbour over the whole file
+            base = build_model(rng, 1, [f if not (f.startswith("clash") or f.startswith("miss") or f == "occ-absent-clash")
+                                        else "plain" for f in feats], chains=chains, icn=icn, ocn=ocn)
+        return base + _shift(base, 2, _NEAR, ch=other, lch="ZZ")
+    raise lib.MachineryError("unknown layout " + layout)
+
+
+def table_features(lines):
+    """Descriptive statistics of a table (for the evidence file only)."""
+    models = sorted({ln["m"] for ln in lines})
+    keys = {}
+    for ln in lines:
+        keys.setdefault((ln["m"], ln["ch"], ln["num"], ln["ic"], ln["rn"], ln["an"]), []).append(ln)
+    return {"models": len(models), "first_model": lines[0]["m"], "lines": len(lines),
+            "repeated_keys": sum(1 for v in keys.values() if len(v) > 1),
+            "altloc": sum(1 for ln in lines if ln["alt"]), "negative_numbers": sum(1 for ln in lines if ln["num"] < 0),
+            "icodes": sum(1 for ln in lines if ln["ic"]), "hetero": sum(1 for ln in lines if ln["het"]),
+            "absent_occ": sum(1 for ln in lines if ln["occ"] < 0)}
+
+
+def gen_tables(count, seed):
+    """Seeded tables cycling deterministically through layouts x atom features x null markers, so that
+    every pair (layout, feature) occurs; the remaining choices are random."""
+    rng = random.Random(seed * 1000003 + 17)
+    tables = []
+    k = 0
+    while len(tables) < count:
+        layout = LAYOUTS[k % len(LAYOUTS)]
+        f1 = ATOM_FEATURES[(k // len(LAYOUTS)) % len(ATOM_FEATURES)]
+        nres = rng.choice([1, 2, 2, 3, 4])
+        feats = [f1] + [rng.choice(ATOM_FEATURES) for _ in range(nres - 1)]
+        rng.shuffle(feats)
+        # null-marker classes are kept apart from the multi-model layouts (one understood defect per table)
+        cls = k % 7
+        icn, ocn = "?", "?"
+        if layout in ("one", "one-num3"):
+            if cls == 1:
+                icn = "."
+            elif cls == 2:
+                ocn = rng.choice(["?", "."])
+                feats[rng.randrange(len(feats))] = NULL_FEATURES[(k // 7) % len(NULL_FEATURES)]
+        lines = build_table(rng, layout, feats, chains=rng.choice([1, 1, 2]), icn=icn, ocn=ocn)
+        tables.append({"tid": f"g{seed}-{k}", "layout": layout, "feats": feats, "icn": icn, "ocn": ocn, "lines": lines})
+        k += 1
+    return tables
+
+
+def c08_cases(tables, colshuffle_every=5):
+    cases = []
+    for t in tables:
+        lines = t["lines"]
+        models = []
+        for ln in lines:
+            if ln["m"] not in models:
+                models.append(ln["m"])
+        fmts = ["cif"] if any(ln["occ"] < 0 for ln in lines) or not pdb_representable(lines) else ["pdb", "cif"]
+        for fmt in fmts:
+            n = len(cases)
+            colseed = (n + 1) if (fmt == "cif" and n % colshuffle_every == 0) else 0
+            for req in [0] + models:
+                cases.append({"id": f"{t['tid']}-{fmt}-r{req}", "kind": "read", "fmt": fmt, "req": req, "lines": lines,
+                              "colseed": colseed})
+            cases.append({"id": f"{t['tid']}-{fmt}-parse", "kind": "parse", "fmt": fmt, "req": 0, "lines": lines,
+                          "colseed": colseed})
+    return cases
+
+
+def pdb_representable(lines):
+    for ln in lines:
+        if len(ln["ch"]) != 1 or len(ln["rn"]) > 3 or len(ln["an"]) > 4 or not (-999 <= ln["num"] <= 9999) \
+                or len(ln["ic"]) > 1 or len(ln["alt"]) > 1 or ln["occ"] < 0 \
+                or not all(-999999 <= ln[k] <= 9999999 for k in "xyz"):
+            return False
+    return True
